@@ -189,6 +189,22 @@ def worker(run, shape):
     if not ok5:
         run.inconclusive.append('%s: composition step does not follow (harness bug)' % name)
 
+    # after unmake: the incremental key is restored exactly; the position is restored exactly (C02), hence F too
+    b2 = stp.unmake()
+    key2 = B.board_parts(b2)['zkey']
+    q6 = run.decide('%s/unmake-key' % name, pre + [stp.guard(), key2 != S.zkey], kind='smt',
+                    note='zkey after make;unmake == zkey before (== F(S) by assumption; F(S\'\') == F(S) since the position is restored, C02)')
+    if q6.verdict == 'sat':
+        from .c02 import compare_native
+        btoks = BS.board_tokens_from_model(q6.model, S)
+        ptoks = BS.shape_ply_tokens(q6.model, m)
+        stt, diff = compare_native(run, 'makeunmake', btoks, ptoks)
+        if stt == 'OK' and 'zkey' in diff:
+            run.violation('after make;unmake of %s the incremental key differs from the key of the (restored) position' % name,
+                          {'cmd': 'makeunmake', 'board': btoks, 'ply': ptoks, 'differs': diff})
+        else:
+            run.inconclusive.append('%s/unmake-key: model does not reproduce natively (%s %s)' % (name, stt, diff))
+
     failed = bad_squares or q3.verdict == 'sat' or q4.verdict == 'sat'
     if failed:
         qq = bad_squares[0][1] if bad_squares else (q3 if q3.verdict == 'sat' else q4)
@@ -302,6 +318,11 @@ def check(run, replay=None):
     if replay:
         run.build()
         c = json.load(open(replay))
+        if c.get('cmd') == 'makeunmake':
+            from .c02 import compare_native
+            stt, diff = compare_native(run, 'makeunmake', c['board'], c['ply'])
+            print('replay make;unmake: %s, components not restored: %s' % (stt, diff))
+            return 1 if (stt != 'OK' or diff) else 0
         stt, out = BS.native_board_cmd(run, 'make', c['board'], c['ply'])
         if stt != 'OK':
             print('replay:', stt, out)
